@@ -1,0 +1,12 @@
+//go:build !verif
+
+package smtp
+
+// Verification hooks (see verif_on.go). With the "verif" build tag off these
+// are empty and inlined away.
+
+func verifEvent(c *Conn, ev string, args ...interface{}) {}
+
+func verifEventAsync(c *Conn, ev string, args ...interface{}) {}
+
+func verifGate(c *Conn, name string) {}
